@@ -78,7 +78,7 @@ def specIter (t : Ty) (v : Val) : String :=
 
 def isHistOp (n : String) : Bool :=
   ["begin", "mk", "get", "val", "copy", "set", "setv", "app", "pop", "chg", "obs", "len", "rd",
-   "snap", "chk", "memo", "hcount", "sum", "iter", "rset", "rtxt", "blen", "appd", "setd", "appv"].contains n
+   "snap", "chk", "memo", "hcount", "sum", "iter", "rset", "rtxt", "blen", "appd", "setd", "appv", "obsg", "iterget", "rehash", "iter2"].contains n
 
 /-- PROP verdict of an operation of the two machines: the implementation's observation must be
     what the plain value machine says.  On a summarised backing (C12) an error is acceptable
@@ -157,6 +157,29 @@ def step (s : HState) (name : String) (args impl : List String) : Except String 
     let (x, _) ← runP val rest
     withId h1 fun id => pure (both s (.chg id sel x) impl none (some id))
   | "obs", h1 :: _ => withId h1 fun id => pure (both s (.obs id) impl)
+  | "obsg", h1 :: _ => withId h1 fun id => pure (both s (.obs id) impl)       -- same observation through a GetHashFn() hasher
+  | "iterget", h2 :: h1 :: i :: _ => do let i ← natTok i; withId h1 fun p => pure (both s (.get p i) impl (some h2))  -- Iter() hands out Get(i)
+  | "rehash", _ => return (s, "ok", if impl == ["ok"] then "ok" else "FAIL:rehash")
+  | "iter2", h1 :: h2 :: _ =>
+    withId h1 fun a => withId h2 fun b => do
+      let oa := s.ms[a]!
+      let ob := s.ms[b]!
+      let iterable (t : Ty) : Bool := match t with
+        | .bitvector _ | .bitlist _ | .vector _ _ | .list _ _ | .container _ => true
+        | _ => false
+      if !(iterable oa.ty && iterable ob.ty) then pure (s, "err", "ok") else
+      -- harness format: items until the first `.` or `E` inclusive
+      let cut (r : String) : String :=
+        let toks := ((r.drop 3).toString.splitOn " ").filter (· ≠ "")
+        let rec go : List String → List String
+          | [] => []
+          | "." :: _ => ["."]
+          | "E" :: _ => ["E"]
+          | x :: xs => x :: go xs
+        " ".intercalate (go toks)
+      let m := "ok " ++ cut (runIter oa.ty oa.node true) ++ " && " ++ cut (runIter ob.ty ob.node true)
+      let sp := "ok " ++ cut (specIter (s.vs[a]!).ty (s.vs[a]!).val) ++ " && " ++ cut (specIter (s.vs[b]!).ty (s.vs[b]!).val)
+      pure (s, m, if " ".intercalate impl == sp || s.partialTree then "ok" else s!"FAIL:interleaved-iterators-differ-from-indexed-access")
   | "len", h1 :: _ => withId h1 fun id => pure (both s (.len id) impl)
   | "rd", h1 :: i :: _ => do let i ← natTok i; withId h1 fun id => pure (both s (.rd id i) impl)
   | "appv", h1 :: h2 :: _ =>
